@@ -186,7 +186,13 @@ func (x *Executor) execInstr(fr *Frame, in ssa.Instruction, st *State, reach str
 		} else if pt, ok := t.Type().Underlying().(*types.Pointer); ok {
 			if pf, ok2 := t.X.Type().Underlying().(*types.Pointer); ok2 && !types.Identical(pt.Elem(), pf.Elem()) {
 				if _, isS := pt.Elem().Underlying().(*types.Struct); isS {
-					u.unsupported("pointer conversion between distinct struct types")
+					// allowed when both share one underlying struct (same heap components)
+					if pt.Elem().Underlying() != pf.Elem().Underlying() {
+						u.unsupported("pointer conversion between distinct struct types")
+					} else {
+						u.canonStruct(pf.Elem())
+						u.canonStruct(pt.Elem())
+					}
 				}
 			}
 		} else if _, ok := t.Type().Underlying().(*types.Struct); ok && !types.Identical(t.Type(), t.X.Type()) {
